@@ -242,6 +242,15 @@ class Normalizer(ast.NodeTransformer):
                 break
         return node
 
+    def visit_Delete(self, node):
+        self.generic_visit(node)
+        # del xs[i]  ->  xs.pop(i)   (same removal, same IndexError / KeyError; the popped value is dropped)
+        if len(node.targets) == 1 and isinstance(node.targets[0], ast.Subscript) and not isinstance(node.targets[0].slice, (ast.Slice, ast.Tuple)):
+            t = node.targets[0]
+            call = ast.Call(func=ast.Attribute(value=t.value, attr="pop", ctx=ast.Load()), args=[t.slice], keywords=[])
+            return ast.fix_missing_locations(ast.copy_location(ast.Expr(value=call), node))
+        return node
+
     def visit_Expr(self, node):
         self.generic_visit(node)
         c = node.value
